@@ -392,17 +392,17 @@ class ClientGenerator:
                     break
                 current = current.parent
 
-            # If core_dir is outside out_dir structure, ensure its __init__.py exist too
-            if not str(core_dir).startswith(str(out_dir)):
-                current = core_dir
-                while current != project_root:
-                    init_path = current / "__init__.py"
-                    if not init_path.exists():
-                        init_path.write_text("")
-                        init_files_created += 1
-                    if current.parent == current:
-                        break
-                    current = current.parent
+            # Wherever core_dir lives - outside out_dir or nested below it (myapi.shared.core) - every package on the
+            # way down to it needs its __init__.py, as in the temp tree of the compare-only branch above
+            current = core_dir
+            while current != project_root:
+                init_path = current / "__init__.py"
+                if not init_path.exists():
+                    init_path.write_text("")
+                    init_files_created += 1
+                if current.parent == current:
+                    break
+                current = current.parent
 
             self._log_progress(f"Created {init_files_created} __init__.py files", "INIT_FILES")
 
